@@ -290,6 +290,10 @@ def full_state_digest(lst):
         if k == '_file' or (hasattr(v, '__func__') and getattr(v, '__self__', None) is lst):
             continue
         d[k] = v
+    # the directory of the file is not state (truncated copies live in per-worker scratch directories, and the
+    # shards of one search must agree on the digest of a state)
+    if isinstance(d.get('filename'), str):
+        d['filename'] = os.path.basename(d['filename'])
     try:
         blob = pickle.dumps(d, protocol=4)
     except Exception as e:
